@@ -1,7 +1,293 @@
-//! Implementation-side evaluator for the `filter` correspondence checks (see props/).
+//! Implementation-side evaluator for the `filter` correspondence checks (props/C04.py).
+//!
+//! op "case": one filter configuration applied to 1..n binaries through the public API
+//!   (`TestFilterBuilder::new(..)`, `filter_binary_match`, `build().filter_match(..)`), the
+//!   whole-list path through hook H4 (`verif_test_list::process_output`), and the truth tables of
+//!   every filterset involved (`matches_test` / `matches_binary`), which the check hands to the
+//!   Coq model as its abstract expression stage.
+//! op "cli": the real clap definition of the filter options + `merge_test_binary_args` +
+//!   `make_test_filter_builder` (hook `verif_dispatch` in cargo-nextest/src/dispatch.rs).
+use crate::common::*;
+use cargo_nextest::verif_dispatch::{self, VerifArgsError};
+use nextest_filtering::{
+    CompiledExpr, EvalContext, Filterset, FiltersetKind, ParseContext, TestQuery,
+};
+use nextest_runner::{
+    list::{verif_test_list, RustTestArtifact},
+    partition::PartitionerBuilder,
+    test_filter::{
+        BinaryMismatchReason, FilterBinaryMatch, FilterBound, RunIgnored, TestFilterBuilder,
+        TestFilterPatterns,
+    },
+};
 use serde_json::{json, Value};
+use std::collections::BTreeSet;
+
+fn partitioner(p: &Value) -> Option<PartitionerBuilder> {
+    if p.is_null() {
+        return None;
+    }
+    let shard = p["m"].as_u64()?;
+    let total_shards = p["n"].as_u64()?;
+    match p["kind"].as_str()? {
+        "count" => Some(PartitionerBuilder::Count {
+            shard,
+            total_shards,
+        }),
+        "hash" => Some(PartitionerBuilder::Hash {
+            shard,
+            total_shards,
+        }),
+        _ => None,
+    }
+}
+
+fn run_ignored(s: &str) -> RunIgnored {
+    match s {
+        "only" => RunIgnored::Only,
+        "all" => RunIgnored::All,
+        _ => RunIgnored::Default,
+    }
+}
+
+fn opt_code(o: Option<bool>) -> u64 {
+    match o {
+        Some(false) => 0,
+        Some(true) => 1,
+        None => 2,
+    }
+}
+
+fn bin_code(m: FilterBinaryMatch) -> u64 {
+    match m {
+        FilterBinaryMatch::Definite => 0,
+        FilterBinaryMatch::Possible => 1,
+        FilterBinaryMatch::Mismatch {
+            reason: BinaryMismatchReason::Expression,
+        } => 2,
+        FilterBinaryMatch::Mismatch {
+            reason: BinaryMismatchReason::DefaultSet,
+        } => 3,
+    }
+}
+
+fn patterns_of(case: &Value) -> TestFilterPatterns {
+    let mut patterns = TestFilterPatterns::new(strs(&case["pre"]));
+    for op in case["ops"].as_array().map(|a| a.as_slice()).unwrap_or(&[]) {
+        let arg = op[1].as_str().unwrap().to_owned();
+        match op[0].as_str().unwrap() {
+            "sub" => patterns.add_substring_pattern(arg),
+            "exact" => patterns.add_exact_pattern(arg),
+            "skip" => patterns.add_skip_pattern(arg),
+            "skipexact" => patterns.add_skip_exact_pattern(arg),
+            other => panic!("unknown pattern op {other}"),
+        }
+    }
+    patterns
+}
+
+fn artifact_of(b: &Value) -> RustTestArtifact<'static> {
+    artifact(
+        b["pkg"].as_str().unwrap(),
+        b["id"].as_str().unwrap(),
+        b["name"].as_str().unwrap(),
+        b["kind"].as_str().unwrap(),
+        b["platform"].as_str().unwrap(),
+    )
+}
+
+fn listing(names: &Value) -> String {
+    strs(names)
+        .iter()
+        .map(|n| format!("{n}: test\n"))
+        .collect::<String>()
+}
+
+fn calls_of(b: &Value) -> Vec<(String, bool)> {
+    b["calls"]
+        .as_array()
+        .map(|a| {
+            a.iter()
+                .map(|c| (c[0].as_str().unwrap().to_owned(), c[1].as_bool().unwrap()))
+                .collect()
+        })
+        .unwrap_or_default()
+}
+
+fn run_case(case: &Value) -> Value {
+    let pcx = ParseContext::new(graph());
+    let mut sets = Vec::new();
+    for e in strs(&case["filtersets"]) {
+        match Filterset::parse(e.clone(), &pcx, FiltersetKind::Test) {
+            Ok(f) => sets.push(f),
+            Err(_) => return json!({ "error": format!("filterset does not parse: {e}") }),
+        }
+    }
+    let default_src = case["default"].as_str().unwrap_or("all()").to_owned();
+    let default = match Filterset::parse(default_src.clone(), &pcx, FiltersetKind::DefaultFilter) {
+        Ok(f) => f.compiled,
+        Err(_) => return json!({ "error": format!("default filter does not parse: {default_src}") }),
+    };
+    let default: CompiledExpr = default;
+    let ecx = EvalContext {
+        default_filter: &default,
+    };
+    let bound = match case["bound"].as_str().unwrap_or("all") {
+        "default" => FilterBound::DefaultSet,
+        _ => FilterBound::All,
+    };
+    let builder = match TestFilterBuilder::new(
+        run_ignored(case["ri"].as_str().unwrap_or("default")),
+        partitioner(&case["partition"]),
+        patterns_of(case),
+        sets.clone(),
+    ) {
+        Ok(b) => b,
+        Err(e) => return json!({ "error": format!("builder: {e}") }),
+    };
+
+    let mut out = Vec::new();
+    for b in case["binaries"].as_array().unwrap() {
+        let art = artifact_of(b);
+        let calls = calls_of(b);
+        // every name this binary is asked about
+        let mut names: BTreeSet<String> = calls.iter().map(|(n, _)| n.clone()).collect();
+        names.extend(strs(&b["non_ignored"]));
+        names.extend(strs(&b["ignored"]));
+        let names: Vec<String> = names.into_iter().collect();
+
+        // truth tables of the expression stage, from the real evaluator
+        let bq = art.to_binary_query();
+        let ebs: Vec<u64> = sets
+            .iter()
+            .map(|s| opt_code(s.matches_binary(&bq, &ecx)))
+            .collect();
+        let db = opt_code(default.matches_binary(&bq, &ecx));
+        let ets: Vec<Vec<u64>> = sets
+            .iter()
+            .map(|s| {
+                names
+                    .iter()
+                    .map(|n| {
+                        s.matches_test(
+                            &TestQuery {
+                                binary_query: art.to_binary_query(),
+                                test_name: n,
+                            },
+                            &ecx,
+                        ) as u64
+                    })
+                    .collect()
+            })
+            .collect();
+        let dt: Vec<u64> = names
+            .iter()
+            .map(|n| {
+                default.matches_test(
+                    &TestQuery {
+                        binary_query: art.to_binary_query(),
+                        test_name: n,
+                    },
+                    &ecx,
+                ) as u64
+            })
+            .collect();
+
+        // binary level
+        let bin = bin_code(builder.filter_binary_match(&art, &ecx, bound));
+
+        // test level: one TestFilter, a sequence of calls
+        let mut tf = builder.build();
+        let call_codes: Vec<u64> = calls
+            .iter()
+            .map(|(n, ign)| mismatch_code(tf.filter_match(&art, n, &ecx, bound, *ign)))
+            .collect();
+
+        // whole-list path
+        let list = if b["non_ignored"].is_null() && b["ignored"].is_null() {
+            Value::Null
+        } else {
+            match verif_test_list::process_output(
+                artifact_of(b),
+                &builder,
+                &ecx,
+                bound,
+                &listing(&b["non_ignored"]),
+                &listing(&b["ignored"]),
+            ) {
+                Ok(v) => json!(v
+                    .into_iter()
+                    .map(|(n, ign, fm)| json!([n, ign as u64, mismatch_code(fm)]))
+                    .collect::<Vec<_>>()),
+                Err(e) => json!({ "error": e.to_string() }),
+            }
+        };
+        out.push(json!({
+            "names": names, "ebs": ebs, "db": db, "ets": ets, "dt": dt,
+            "bin": bin, "calls": call_codes, "list": list,
+        }));
+    }
+    json!(out)
+}
+
+fn sorted(it: impl IntoIterator<Item = String>) -> Vec<String> {
+    let mut v: Vec<String> = it.into_iter().collect();
+    v.sort();
+    v
+}
+
+fn run_cli(case: &Value) -> Value {
+    let argv = strs(&case["argv"]);
+    match verif_dispatch::merged_test_filter(&argv) {
+        Err(VerifArgsError::Clap(_)) => json!({ "err": "clap" }),
+        Err(VerifArgsError::TestBinaryArgs(reason, args)) => {
+            json!({ "err": reason, "args": args })
+        }
+        Err(VerifArgsError::Other(e)) => json!({ "err": "other", "detail": e }),
+        Ok(m) => {
+            let ri = match m.run_ignored {
+                None => 0,
+                Some(RunIgnored::Default) => 1,
+                Some(RunIgnored::Only) => 2,
+                Some(RunIgnored::All) => 3,
+            };
+            let pats = match m.patterns {
+                TestFilterPatterns::SkipOnly {
+                    skip_patterns,
+                    skip_exact_patterns,
+                } => json!({ "variant": "skiponly", "subs": [], "exacts": [],
+                             "skips": skip_patterns, "skip_exacts": sorted(skip_exact_patterns) }),
+                TestFilterPatterns::Patterns {
+                    patterns,
+                    exact_patterns,
+                    skip_patterns,
+                    skip_exact_patterns,
+                } => json!({ "variant": "patterns", "subs": patterns,
+                             "exacts": sorted(exact_patterns), "skips": skip_patterns,
+                             "skip_exacts": sorted(skip_exact_patterns) }),
+            };
+            // the builder that cargo-nextest would use, applied to the given tests
+            let all = CompiledExpr::ALL;
+            let ecx = EvalContext {
+                default_filter: &all,
+            };
+            let art = artifact("a", "crate_a", "crate_a", "lib", "target");
+            let mut tf = m.builder.build();
+            let codes: Vec<u64> = calls_of(case)
+                .iter()
+                .map(|(n, ign)| {
+                    mismatch_code(tf.filter_match(&art, n, &ecx, FilterBound::All, *ign))
+                })
+                .collect();
+            json!({ "ri": ri, "pats": pats, "calls": codes })
+        }
+    }
+}
 
 pub fn run(case: &Value) -> Value {
-    let _ = case;
-    json!({ "error": "not implemented" })
+    match case["op"].as_str().unwrap_or("") {
+        "case" => run_case(case),
+        "cli" => run_cli(case),
+        other => json!({ "error": format!("unknown op {other}") }),
+    }
 }
